@@ -107,6 +107,13 @@ type GenesisCfg struct {
 	UserDelegs     [][3]int64 `json:"user_delegs"`  // genesis delegations: [user index, validator index, amount loya]
 	NodeVariant    int     `json:"node_variant"`    // local node configuration variant (must not matter; C01 varies it per replica)
 	BootVotes      [][]VoteSpec `json:"boot_votes,omitempty"` // vote behaviour in the two bootstrap blocks (default: all honest)
+	// GhostRounds: node-local consensus history that must not matter (C01 sets it on every other replica): before the
+	// decided proposal of each height this node also prepares and processes a proposal of an abandoned earlier round
+	// whose proposer had seen one precommit less; that proposal is never finalized
+	GhostRounds bool `json:"ghost_rounds,omitempty"`
+	// SkipDecidedProcess: this node never sees the decided proposal in consensus (it missed the round or catches up by
+	// block sync) and therefore finalizes the block without a ProcessProposal call for it
+	SkipDecidedProcess bool `json:"skip_decided_process,omitempty"`
 }
 
 func DefaultGenesisCfg() GenesisCfg {
@@ -173,6 +180,7 @@ type Chain struct {
 	// ProposalProbe, if set, is called between PrepareProposal and ProcessProposal of every height > 1 with the
 	// honest proposal and a function that asks ProcessProposal about a candidate proposal on the same state
 	ProposalProbe func(h int64, txs [][]byte, try func([][]byte) (bool, *HaltInfo))
+	GhostRoundsPlayed int
 }
 
 // VoteSpec says how one validator behaves in the precommit of a block.
@@ -509,6 +517,9 @@ func (c *Chain) NextBlock(in BlockInput) *BlockResult {
 		}
 	}
 	proposer := c.proposerAddr()
+	if c.Cfg.GhostRounds && h > 2 {
+		c.ghostRound(h, t, proposer, in, extCommit, commit)
+	}
 	// 1. PrepareProposal
 	var prep *abci.ResponsePrepareProposal
 	if hi := guard("PrepareProposal", func() (err error) {
@@ -544,7 +555,9 @@ func (c *Chain) NextBlock(in BlockInput) *BlockResult {
 	}
 	// 2. ProcessProposal
 	var proc *abci.ResponseProcessProposal
-	if hi := guard("ProcessProposal", func() (err error) {
+	if c.Cfg.SkipDecidedProcess && h > 2 && in.MutateProposal == nil && !in.SkipProcessCheck {
+		proc = &abci.ResponseProcessProposal{Status: abci.ResponseProcessProposal_ACCEPT}
+	} else if hi := guard("ProcessProposal", func() (err error) {
 		proc, err = c.App.ProcessProposal(&abci.RequestProcessProposal{Txs: txs, ProposedLastCommit: commit, Height: h, Time: t, ProposerAddress: proposer, Misbehavior: in.Misbehavior, Hash: []byte("blockhash-" + fmt.Sprint(h))})
 		return err
 	}); hi != nil {
@@ -781,4 +794,41 @@ func (c *Chain) LastCommit() []CommitVote {
 		out = append(out, CommitVote{Val: v.val, Power: v.power, Flag: v.flag, Ext: v.ext, Sent: v.sent})
 	}
 	return out
+}
+
+// ghostRound plays an abandoned consensus round on this node: a proposal built from a last commit that lacks one of
+// the precommits (still more than two thirds) is prepared and processed, and then dropped. Whatever the application
+// does in these calls must leave no trace in the execution of the decided block.
+func (c *Chain) ghostRound(h int64, t time.Time, proposer []byte, in BlockInput, extCommit abci.ExtendedCommitInfo, commit abci.CommitInfo) {
+	tot, got := int64(0), int64(0)
+	for _, v := range extCommit.Votes {
+		tot += v.Validator.Power
+		if v.BlockIdFlag == cmtproto.BlockIDFlagCommit {
+			got += v.Validator.Power
+		}
+	}
+	drop := -1
+	for i := len(extCommit.Votes) - 1; i >= 0; i-- {
+		v := extCommit.Votes[i]
+		if v.BlockIdFlag == cmtproto.BlockIDFlagCommit && got-v.Validator.Power >= tot*2/3+1 {
+			drop = i
+			break
+		}
+	}
+	if drop < 0 {
+		return
+	}
+	ge := abci.ExtendedCommitInfo{Round: extCommit.Round, Votes: append([]abci.ExtendedVoteInfo(nil), extCommit.Votes...)}
+	gc := abci.CommitInfo{Round: commit.Round, Votes: append([]abci.VoteInfo(nil), commit.Votes...)}
+	ge.Votes[drop].BlockIdFlag, ge.Votes[drop].VoteExtension, ge.Votes[drop].ExtensionSignature = cmtproto.BlockIDFlagAbsent, nil, nil
+	gc.Votes[drop].BlockIdFlag = cmtproto.BlockIDFlagAbsent
+	func() {
+		defer func() { _ = recover() }()
+		prep, err := c.App.PrepareProposal(&abci.RequestPrepareProposal{MaxTxBytes: 22020096, Txs: in.Txs, LocalLastCommit: ge, Height: h, Time: t, ProposerAddress: proposer, Misbehavior: in.Misbehavior})
+		if err != nil || prep == nil {
+			return
+		}
+		_, _ = c.App.ProcessProposal(&abci.RequestProcessProposal{Txs: prep.Txs, ProposedLastCommit: gc, Height: h, Time: t, ProposerAddress: proposer, Misbehavior: in.Misbehavior, Hash: []byte("ghosthash-" + fmt.Sprint(h))})
+		c.GhostRoundsPlayed++
+	}()
 }
